@@ -28,6 +28,7 @@ import (
 	"go/types"
 	"os"
 	"path/filepath"
+	"regexp"
 	"sort"
 	"strings"
 
@@ -41,6 +42,7 @@ type target struct {
 	Locals []string // fragment mode: the assigned variables whose right-hand sides are translated
 	Lean   string   // Lean name of the definition (fragment mode: prefix)
 	Group  string   // output file Gen/Pure<Group>.lean (one per property family, so that a change in one module cannot break another property's obligations)
+	Calls  []string // fragment mode: the substrate-typed arguments of every call of a method with one of these names (the effects a handler hands on: queue heights, amounts)
 	Opaque bool     // whole-function mode: calls outside the library surface are environment reads (extra parameters)
 	Conds  bool     // fragment mode: the condition of every other `if` too (branching that is not a rejection)
 	Guards bool     // fragment mode: also the conditions of the `if … { return …, err }` statements, in order
@@ -105,6 +107,12 @@ var targets = []target{
 		Locals: []string{"seedBT", "seedBH", "seedTI", "seedSum", "seedOS", "precision"}, Conds: true},
 	{Group: "TokenFee", Mod: "token", Pkg: "keeper", Func: "Keeper.MintToken", Lean: "MintToken",
 		Locals: []string{"precision", "mintableAmt"}, Guards: true, Conds: true},
+	{Group: "ServiceSched", Mod: "service", Pkg: "", Func: "EndBlocker", Lean: "EndBlocker",
+		Calls: []string{"AddNewRequestBatch", "AddRequestBatchExpiration", "DeleteRequestBatchExpiration", "DeleteNewRequestBatch"}, Guards: true, Conds: true},
+	{Group: "ServiceSched", Mod: "service", Pkg: "keeper", Func: "Keeper.UpdateRequestContext", Lean: "UpdateRequestContext",
+		Locals: []string{"timeout", "repeatedFreq", "requestContext_Timeout", "requestContext_RepeatedFrequency", "requestContext_RepeatedTotal"}, Guards: true, Conds: true},
+	{Group: "ServiceSched", Mod: "service", Pkg: "keeper", Func: "Keeper.StartRequestContext", Lean: "StartRequestContext",
+		Calls: []string{"AddNewRequestBatch"}, Guards: true, Conds: true},
 	{Group: "Service", Mod: "service", Pkg: "keeper", Func: "Keeper.AddEarnedFee", Lean: "AddEarnedFee",
 		Locals: []string{"taxAmount"}},
 	{Group: "Service", Mod: "service", Pkg: "keeper", Func: "Keeper.Slash", Lean: "Slash",
@@ -484,6 +492,20 @@ func (t *tr) knownCall(c *ast.CallExpr) bool {
 	return false
 }
 
+// sigName: "name(p1,p2,…)" of a generated definition — the pinned lists carry the parameter names, so a fragment
+// that starts reading a different variable (same type, same formula) differs there
+func sigName(def string) string {
+	d := def[strings.Index(def, "def "):]
+	head := d[4:strings.Index(d, " : Option")]
+	f := strings.Fields(head)
+	name := f[0]
+	var ps []string
+	for _, m := range regexp.MustCompile(`\((\w+) : [^)]*\)`).FindAllStringSubmatch(head, -1) {
+		ps = append(ps, m[1])
+	}
+	return name + "(" + strings.Join(ps, ",") + ")"
+}
+
 func sanitize(s string) string {
 	var b strings.Builder
 	for _, c := range s {
@@ -549,6 +571,9 @@ func (t *tr) call(c *ast.CallExpr, out *[]string) (string, kind) {
 			}
 			return "(" + a + " : Int)", kI64
 		case ak == kI64 && to == kNat:
+			if b, ok := tv.Type.Underlying().(*types.Basic); ok && b.Kind() == types.Uint32 {
+				return "(U32_ofI64 " + a + ")", kNat // uint32(x) keeps the low 32 bits
+			}
 			return "(U64_ofI64 " + a + ")", kNat // uint64(int64) wraps below 0
 		}
 		t.fail(c, "conversion %s", types.ExprString(c))
@@ -950,6 +975,52 @@ func translateLocals(p *packages.Package, fd *ast.FuncDecl, tg target) (defs []s
 		}
 		return true
 	})
+	if len(tg.Calls) > 0 {
+		wantCall := map[string]bool{}
+		for _, c := range tg.Calls {
+			wantCall[c] = true
+		}
+		nth := map[string]int{}
+		ast.Inspect(fd.Body, func(n ast.Node) bool {
+			c, ok := n.(*ast.CallExpr)
+			if !ok {
+				return true
+			}
+			sel, ok := c.Fun.(*ast.SelectorExpr)
+			if !ok || !wantCall[sel.Sel.Name] {
+				return true
+			}
+			nth[sel.Sel.Name]++
+			for ai, a := range c.Args {
+				k := kindOf(p.TypesInfo.TypeOf(a))
+				if k == kOther || k == kErr || k == kBytes {
+					continue // contexts, ids, addresses
+				}
+				name := fmt.Sprintf("%s_call_%s_%d_arg%d", tg.Lean, sel.Sel.Name, nth[sel.Sel.Name], ai)
+				func() {
+					t := &tr{pkg: p, opaque: true, pseen: map[string]bool{}, bound: map[string]kind{}, knownGo: map[string]string{}}
+					defer func() {
+						if r := recover(); r != nil {
+							if u, ok := r.(unsupported); ok {
+								errs = append(errs, name+": "+u.why)
+								return
+							}
+							panic(r)
+						}
+					}()
+					var pre []string
+					v, vk := t.expr(a, &pre)
+					var sb strings.Builder
+					for _, l := range pre {
+						sb.WriteString("  " + l + "\n")
+					}
+					sb.WriteString("  some " + v + "\n")
+					defs = append(defs, fmt.Sprintf("/-- argument %d of `%s` -/\ndef %s%s : Option (%s) := do\n%s", ai, types.ExprString(c.Fun), name, sig(t.params), leanType(vk), sb.String()))
+				}()
+			}
+			return true
+		})
+	}
 	if tg.Guards || tg.Conds {
 		g := 0
 		var ifs []*ast.IfStmt
@@ -1058,7 +1129,7 @@ func writeGroup(group, outLean string, load func(string) []*packages.Package) {
 		}
 		var pkg *packages.Package
 		for _, p := range load(tg.Mod) {
-			if strings.HasSuffix(p.PkgPath, "/modules/"+tg.Mod+"/"+tg.Pkg) {
+			if strings.HasSuffix(p.PkgPath, "/modules/"+tg.Mod+"/"+tg.Pkg) || (tg.Pkg == "" && strings.HasSuffix(p.PkgPath, "/modules/"+tg.Mod)) {
 				pkg = p
 			}
 		}
@@ -1071,12 +1142,12 @@ func writeGroup(group, outLean string, load func(string) []*packages.Package) {
 			untranslated = append(untranslated, tg.Lean+": function "+tg.Func+" not found in "+tg.Mod+"/"+tg.Pkg)
 			continue
 		}
-		if len(tg.Locals) > 0 || tg.Guards || tg.Conds {
+		if len(tg.Locals) > 0 || tg.Guards || tg.Conds || len(tg.Calls) > 0 {
 			ds, es := translateLocals(pkg, fd, tg)
 			defs = append(defs, ds...)
 			untranslated = append(untranslated, es...)
 			for _, d := range ds {
-				names = append(names, strings.Fields(d[strings.Index(d, "def "):])[1])
+				names = append(names, sigName(d))
 			}
 			continue
 		}
@@ -1086,7 +1157,7 @@ func writeGroup(group, outLean string, load func(string) []*packages.Package) {
 			continue
 		}
 		defs = append(defs, d)
-		names = append(names, tg.Lean)
+		names = append(names, sigName(d))
 		if obj, ok := pkg.TypesInfo.Defs[fd.Name].(*types.Func); ok {
 			knownGo[obj.FullName()] = tg.Lean
 		}
